@@ -8,6 +8,7 @@ D=$V/seeded/$P-m$N
 mkdir -p "$D"
 cp "$SRC/patch.diff" "$SRC/demo.rs" "$SRC/meta.json" "$D/"
 CR=$(python3 -c "import json;print(json.load(open('$D/meta.json'))['crates'].replace(' ',''))")
-CONFIRM_TARGET=/tmp/confirm-target CONFIRM_TAG=-$P-m$N python3 "$V/tools/confirm_seed.py" "$CR" "$D" || exit 2
+# one confirmation at a time: concurrent confirmations sharing the target directory reported demos as passing with the patch (round 2)
+CONFIRM_TARGET=/tmp/confirm-target CONFIRM_TAG=-$P-m$N flock /tmp/confirm-seed.lock python3 "$V/tools/confirm_seed.py" "$CR" "$D" || exit 2
 python3 -c "import json,sys;sys.exit(0 if json.load(open('$D/meta.json'))['coordinator_confirmed']['confirmed'] else 1)" || { echo "$P-m$N NOT CONFIRMED"; exit 3; }
 python3 "$V/tools/seedtest.py" "$D"
